@@ -25,6 +25,7 @@ import numpy as np
 from harness import core
 from harness.cones import EXACT_CONES
 from harness.props import c01
+from harness.props import c01_core
 
 TITLE = "whole VOGP / ε-PAL runs under valid adversarial posteriors: isolated optima kept, P internally non-dominated"
 RULE = ("cases: (algorithm ∈ {VOGP, EpsilonPAL}, cone with integer rows (VOGP), dyadic true means with ties / "
@@ -358,10 +359,16 @@ def run_case(ctx, case):
     cap = case.get("rounds", c01.ROUND_CAP.get(ctx.tier, 40))
     fstate = {"compared": 0, "skipped": 0}
 
+    core_rec = c01_core.recorder(case)    # INTEGRATION: the whole run through Model/Core.lean (c01_core.py)
+
     def on_round(alg, adv, before, active, t):
         decided_round(ctx, case, alg, adv, before, t, fstate)
+        if core_rec is not None:
+            core_rec.on_round(alg, adv, before, active, t)
 
     res = c01.run_history(ctx, case, cap, on_round=on_round)
+    if core_rec is not None and not res["status"].startswith("crash"):
+        core_rec.finish(ctx, case, res)
     st = res["status"]
     ctx.count("status_" + (st if st.startswith("skipped") else st.split(":")[0]))
     ctx.count("rounds_total", res.get("rounds", 0))
